@@ -86,7 +86,7 @@ func (srv *Srv) auth(req *SrvReq) {
 
 func (srv *Srv) authPost(req *SrvReq) {
 	if req.Rc != nil && req.Rc.Type == Rauth {
-		req.Afid.IncRef()
+		req.Afid.retain()
 	}
 }
 
@@ -139,7 +139,7 @@ func (srv *Srv) attach(req *SrvReq) {
 func (srv *Srv) attachPost(req *SrvReq) {
 	if req.Rc != nil && req.Rc.Type == Rattach {
 		req.Fid.Type = req.Rc.Qid.Type
-		req.Fid.IncRef()
+		req.Fid.retain()
 	}
 }
 
@@ -239,7 +239,7 @@ func (srv *Srv) walkPost(req *SrvReq) {
 	}
 
 	if req.Newfid.fid != req.Fid.fid {
-		req.Newfid.IncRef()
+		req.Newfid.retain()
 	}
 }
 
